@@ -430,6 +430,17 @@ func moduleOf(v reflect.Value) *env.Env {
 	return nil
 }
 
+// isTypeValue reports whether v is a Go type handed to the script as a value: what
+// make(type T, v) evaluates to. The pointer leads into the runtime's read-only type
+// descriptors, so a script may not look behind it, let alone store through it.
+func isTypeValue(v reflect.Value) bool {
+	if v.Kind() == reflect.Ptr && !v.IsNil() && v.CanInterface() {
+		_, ok := v.Interface().(reflect.Type)
+		return ok
+	}
+	return false
+}
+
 // equalNums returns true when the two numeric values are equal.
 func equalNums(lhsV, rhsV reflect.Value) bool {
 	lhsKind := lhsV.Kind()
